@@ -43,7 +43,12 @@ type c03Config struct {
 	// MaxVariants bounds the crash images per crash point.
 	MaxVariants int `json:"maxVariants,omitempty"`
 	// Only (replay): crash point and variant to execute; -1 = all.
-	OnlyPoint   int `json:"onlyPoint"`
+	OnlyPoint int `json:"onlyPoint"`
+	// PointStride > 1: only every PointStride-th crash point (phase
+	// PointPhase) and the last four are taken (bulk histories whose crash
+	// operation makes hundreds of lower-layer calls).
+	PointStride int `json:"pointStride,omitempty"`
+	PointPhase  int `json:"pointPhase,omitempty"`
 	OnlyVariant int `json:"onlyVariant"`
 }
 
@@ -51,6 +56,7 @@ func init() {
 	// the host-filesystem VFS (osfs.go, under localdisk) is held to the
 	// contract the crash model assumes of a VFS: see sim.RecVFS
 	files.VerifWrapOSFS = func(v files.VFS) files.VFS { return &sim.RecVFS{Inner: v} }
+	sim.FilesGateHook = files.VerifSetNewFileGate
 }
 
 func genC03(tier string, run int, r *simcore.Rand) *harness.Plan {
@@ -65,6 +71,9 @@ func genC03(tier string, run int, r *simcore.Rand) *harness.Plan {
 		root = &sim.Node{Type: "files", Name: "f1"}
 	} else {
 		root = &sim.Node{Type: "diskpacked", Name: "d1", MaxFileSize: []int{1, 40, 150, 600, 5000, 1 << 20}[r.Intn(6)]}
+	}
+	if run%60 == 33 {
+		return genC03Bulk(tier, run, r)
 	}
 	nblobs := r.Range(2, 7)
 	specs := sim.GenBlobSpecs(r, nblobs, 5000)
@@ -104,6 +113,38 @@ func genC03(tier string, run int, r *simcore.Rand) *harness.Plan {
 	sw := map[string]int{"recv": 5, "remove": 2, "fetch": 2, "stat": 1, "enum": 1}
 	suffix = append(suffix, genOps(r, r.Range(1, 5), pool, specs, false, sw)...)
 	cc.Suffix = suffix
+	cfg := Config{Root: root, Blobs: specs, C03: cc}
+	p := &harness.Plan{Mode: "crash", Config: harness.MustJSON(cfg), Bubble: true}
+	p.Sticky = 900
+	for _, op := range ops {
+		p.Ops = append(p.Ops, harness.MustJSON(op))
+	}
+	return p
+}
+
+// genC03Bulk: one RemoveBlobs call over 66-140 tiny blobs on the packed disk
+// store is the crash operation (an implementation that works through a long
+// list in slices has intermediate states a short list never shows); crash
+// points are sampled with a stride.
+func genC03Bulk(tier string, run int, r *simcore.Rand) *harness.Plan {
+	root := &sim.Node{Type: "diskpacked", Name: "d1", MaxFileSize: []int{600, 5000, 1 << 20}[r.Intn(3)]}
+	n := r.Range(66, 140)
+	specs := make([]sim.BlobSpec, n)
+	for i := range specs {
+		specs[i] = sim.BlobSpec{Size: 5 + i%23, Hash: "sha224", Kind: "raw", Salt: r.Uint64()}
+	}
+	var ops []sim.Op
+	for i := 0; i < n; i++ {
+		ops = append(ops, sim.Op{Kind: "recv", B: []int{i}})
+	}
+	// not everything is removed: a few blobs stay
+	all := r.Perm(n)
+	keep := r.Intn(5)
+	ops = append(ops, sim.Op{Kind: "remove", B: append([]int(nil), all[keep:]...)})
+	stride := r.Range(9, 17)
+	cc := &c03Config{CrashOp: len(ops) - 1, OnlyPoint: -1, OnlyVariant: -1, PunchUnsupported: r.Bool(0.4), MaxVariants: 6,
+		PointStride: stride, PointPhase: r.Intn(stride)}
+	cc.Suffix = []sim.Op{{Kind: "recv", B: []int{all[len(all)-1]}}, {Kind: "fetch", B: []int{all[len(all)/2]}}}
 	cfg := Config{Root: root, Blobs: specs, C03: cc}
 	p := &harness.Plan{Mode: "crash", Config: harness.MustJSON(cfg), Bubble: true}
 	p.Sticky = 900
@@ -277,6 +318,9 @@ func execC03(rc *harness.RunCtx, p *harness.Plan, cfg *Config, ops []sim.Op) *ha
 	// 2. crash points
 	for c := 0; c <= ncalls; c++ {
 		if cc.OnlyPoint >= 0 && c != cc.OnlyPoint {
+			continue
+		}
+		if cc.OnlyPoint < 0 && cc.PointStride > 1 && c%cc.PointStride != cc.PointPhase%cc.PointStride && c < ncalls-3 {
 			continue
 		}
 		if v := crashPoint(rc, p, cfg, cc, ops, j, c, ncalls, isFiles, out); v != nil {
